@@ -357,9 +357,10 @@ namespace OP2Utility::Archive
 		m_IndexTableLength = ReadTag(TagVOLI);
 		m_IndexEntryCount = m_IndexTableLength / sizeof(IndexEntry);
 
-		if (m_IndexTableLength > 0) {
+		if (m_IndexEntryCount > 0) {
+			// Only whole entries are read. A trailing partial entry is treated as padding.
 			m_IndexEntries.resize(m_IndexEntryCount);
-			archiveFileReader.Read(m_IndexEntries.data(), m_IndexTableLength);
+			archiveFileReader.Read(m_IndexEntries);
 		}
 
 		if (m_HeaderLength < m_StringTableLength + m_IndexTableLength + 24) {
@@ -406,6 +407,10 @@ namespace OP2Utility::Archive
 				break;
 			}
 		}
+		if (packedFileCount > m_StringTable.size()) {
+			throw std::runtime_error("The index table lists more files than the string table has names in volume " + m_ArchiveFilename);
+		}
+
 		m_Count = packedFileCount;
 	}
 
